@@ -18,7 +18,9 @@ def _norm(decl):
     if decl is None:
         return None
     r = decl['reaches']
-    return (decl['type'], decl['ttc'], list(decl['tags']), None if not r else list(r['stepExpressions']))
+    q = decl.get('requires')
+    return (decl['type'], decl['ttc'], list(decl['tags']), None if not r else list(r['stepExpressions']),
+            None if not q else list(q['stepExpressions']))
 
 
 def _check_all(lg, spec0, where):
